@@ -21,8 +21,9 @@ ASSUMPTIONS = ["model domain: numeric fields are plain ASCII digit/hex strings a
                "Unicode-aware strip/title) are detected by instrumentation and skipped for the correspondence (count in coverage.distribution)",
                "theorem side condition GoodRun: no header block announces both 'Transfer-Encoding: chunked' and a positive Content-Length (RFC 7230 3.3.3); "
                "the implementation is split-dependent on such messages - observed on this run and reported as 'both-framings-split-dependent' (not a violation: outside 'well-formed')",
-               "correctness against the writer is a theorem for all three framings (Content-Length, chunked, no body) with header names and values in canonical form (C07_written_stream_any_segmentation over Spec/HttpWriter.lean); "
-               "for non-canonical header spellings (casing, padding around the colon) the expected messages come from this harness's own grammar (oracle on this run's samples), and the segmentation theorem extends each sample to all of its splits"]
+               "correctness against the writer (C07_written_stream_any_segmentation over Spec/HttpWriter.lean) covers all three framings (Content-Length, chunked, no body) and ordinary headers in any spelling "
+               "(the application sees the Title-Cased name and the value without surrounding white space); the framing header itself is written canonically (`Content-Length: n`, `Transfer-Encoding: chunked`) - "
+               "other spellings of it are covered by this harness's own grammar (oracle on this run's samples), extended to all splits by the segmentation theorem"]
 EXPLANATION = ("Lean theorems C07_* over the model of HttpResponse.parse + data_received loop: segmentation independence (feed (a++b) = feed a; feed b, lifted to any list of reads, any stream) and "
                "correctness for every segmentation of every stream written by the independent writer of Spec/HttpWriter.lean (the parser returns exactly the messages written and consumes exactly their bytes); "
                "differential tie on data_received")
@@ -168,11 +169,14 @@ def gen_written(rng, small=False):
     ver = rng.choice([b"HTTP/1.1", b"EVENT/1.0", b"HTTP/1.0"])
     code = rng.choice([200, 204, 207, 400, 470, 500])
     reason = rng.choice([b"OK", b"No Content", b"Multi-Status", b"Multi Status  x", b""])
-    hs = rng.sample(CANON_HDRS, rng.randint(0, 1 if small else 4))
+    # ordinary headers in any spelling: (name as written, value as written incl. its padding)
+    pool = [(n, b" " + v) for n, v in CANON_HDRS] + [tuple(x.split(b":", 1)) for x in HDRS]
+    hs = rng.sample(pool, rng.randint(0, 1 if small else 4))
     maxb = 12 if small else 600
     t = rng.random()
-    head = ver + b" %d " % code + reason + b"\r\n" + b"".join(n + b": " + v + b"\r\n" for n, v in hs)
+    head = ver + b" %d " % code + reason + b"\r\n" + b"".join(n + b":" + v + b"\r\n" for n, v in hs)
     htok = ",".join(f"{hx(n)}={hx(v)}" for n, v in hs) or "."
+    hs = [(n.decode().strip().title().encode(), v.decode().strip().encode()) for n, v in hs]  # what the application must see
     if t < 0.4:
         body = rbody(rng, rng.choice([0, 1, 2, rng.randint(0, maxb)]))
         lt = b"%d" % len(body) if rng.random() < 0.8 else b"%04d" % len(body)
